@@ -189,7 +189,10 @@ func ruleC11R2(c *Ctx) {
 							}
 						}
 					}
-					scanDone := map[*ssa.BasicBlock]bool{}
+					// the scan of all live sets has completed when the range loop over them leaves through
+					// its exhausted edge (ok == false of Next), not through a break
+					type edge struct{ from, to *ssa.BasicBlock }
+					scanDone := map[edge]bool{}
 					for _, m := range methods {
 						eachInstr(m, func(x ssa.Instruction) {
 							nx, ok := x.(*ssa.Next)
@@ -203,7 +206,7 @@ func ruleC11R2(c *Ctx) {
 							if okv := resultValue2(nx, 0); okv != nil && okv.Referrers() != nil {
 								for _, r := range *okv.Referrers() {
 									if iff, isIf := r.(*ssa.If); isIf {
-										scanDone[iff.Block().Succs[1]] = true
+										scanDone[edge{iff.Block(), iff.Block().Succs[1]}] = true
 									}
 								}
 							}
@@ -221,16 +224,17 @@ func ruleC11R2(c *Ctx) {
 						}
 						return []Outcome{{Results: []Tri{TriUnknown, TriYes}, Flags: fHit | fLooked}, {Results: []Tri{TriUnknown, TriNo}, Flags: fLooked}}
 					}
-					sm.OnInstr = func(f *ssa.Function, x ssa.Instruction, st *PState) bool {
-						if scanDone[x.Block()] && x == x.Block().Instrs[0] {
+					sm.OnEdge = func(from, to *ssa.BasicBlock, st *PState) {
+						if scanDone[edge{from, to}] {
 							st.Flags |= fScanned
 						}
-						return true
 					}
 					ex := sm.Explorer(fn)
 					base := ex.OnInstr
 					ex.OnInstr = func(x ssa.Instruction, st *PState) bool {
-						base(x, st)
+						if base != nil {
+							base(x, st)
+						}
 						if x == ssa.Instruction(ci) {
 							if st.Flags&fHit != 0 {
 								problems = append(problems, "the removal is reachable although the candidate was found in a live snapshot's segment set in this round (the file is still needed)")
@@ -242,6 +246,7 @@ func ruleC11R2(c *Ctx) {
 						return true
 					}
 					ex.OnEdge = func(from, to *ssa.BasicBlock, st *PState) {
+						sm.OnEdge(from, to, st)
 						if to == outer && outer != nil && naturalLoop(outer)[from] {
 							st.Flags &^= fHit | fScanned | fLooked
 						}
@@ -827,7 +832,18 @@ func reachesThroughFields(v ssa.Value, pred func(ssa.Value) bool, d int) bool {
 	if d > 6 || v == nil {
 		return false
 	}
-	if dependsOn(v, pred) {
+	// an error (or a number, string, bool) computed by a call that received the resource does not hold it
+	if dependsOnStop(v, pred, func(y ssa.Value) bool {
+		if pred(y) {
+			return false
+		}
+		t := y.Type()
+		if isErrorType(t) {
+			return true
+		}
+		_, basic := t.Underlying().(*types.Basic)
+		return basic
+	}) {
 		return true
 	}
 	v = stripIface(v)
